@@ -118,6 +118,13 @@ func vOp(kind int, ref *vRef) ovsdb.Operation {
 		}
 		ref.conf = keep
 		return ovsdb.Operation{Op: ovsdb.OperationMutate, Table: "Root", Mutations: []ovsdb.Mutation{{Column: "conf", Mutator: ovsdb.MutateOperationDelete, Value: vStrSetOvs([]string{k})}}}
+	case 12, 13: // one mutate operation carrying two mutations of the set (12) or of the map (13)
+		var muts []ovsdb.Mutation
+		for i := 0; i < 2; i++ {
+			sub := vOp([]int{5, 6}[rt.Choose(2)]+2*(kind-12), ref)
+			muts = append(muts, sub.Mutations...)
+		}
+		return ovsdb.Operation{Op: ovsdb.OperationMutate, Table: "Root", Mutations: muts}
 	case 10: // one update naming two columns: the set (possibly with its current value) and the integer
 		ls := vStrSet(rt.Choose(3), false)
 		v := rt.Int()
@@ -291,3 +298,93 @@ func VerifC11K2Sets()  { verifC11(2, 2, []int{2, 5, 6, 9}) }
 func VerifC11K3Sets()  { verifC11(3, 2, []int{2, 5, 6}) }
 func VerifC11K2Maps()  { verifC11(2, 2, []int{3, 7, 8, 9}) }
 func VerifC11K3Maps()  { verifC11(3, 1, []int{3, 7, 8}) }
+
+func VerifC11TwoMutSet() { verifC11(1, 2, []int{12}) }
+func VerifC11TwoMutMap() { verifC11(1, 2, []int{13}) }
+
+// ---- a set column with a finite bound above one (merged element-wise like an unlimited set) ----
+
+const vSchemaBounded = `{"name":"V","version":"1.0.0","tables":{
+ "Root":{"isRoot":true,"columns":{
+   "few":{"type":{"key":"string","min":0,"max":4}},
+   "num":{"type":"integer"}
+ }}}}`
+
+type vBounded struct {
+	UUID string   `ovsdb:"_uuid"`
+	Few  []string `ovsdb:"few"`
+	Num  int      `ovsdb:"num"`
+}
+
+// VerifC11Bounded: two operations accumulated on a row whose set column is bounded (max 4): the merged update
+// takes the old row to the final row, through both encodings.
+func VerifC11Bounded() {
+	cm, err := model.NewClientDBModel("V", map[string]model.Model{"Root": &vBounded{}})
+	if err != nil {
+		panic(err)
+	}
+	dbm, errs := model.NewDatabaseModel(fix.MustSchema(vSchemaBounded), cm)
+	if len(errs) > 0 {
+		panic(errs[0])
+	}
+	old := &vBounded{UUID: fix.U1, Few: vStrSet(rt.Choose(3), true)}
+	ref := vCloneStrs(old.Few)
+	u := ModelUpdates{}
+	for i := 0; i < 2; i++ {
+		var op ovsdb.Operation
+		x := rt.String()
+		switch rt.Choose(3) {
+		case 0:
+			if !vStrIn(x, ref) {
+				ref = append(vCloneStrs(ref), x)
+			}
+			op = ovsdb.Operation{Op: ovsdb.OperationMutate, Table: "Root", Mutations: []ovsdb.Mutation{{Column: "few", Mutator: ovsdb.MutateOperationInsert, Value: vStrSetOvs([]string{x})}}}
+		case 1:
+			var keep []string
+			for _, y := range ref {
+				if y != x {
+					keep = append(keep, y)
+				}
+			}
+			ref = keep
+			op = ovsdb.Operation{Op: ovsdb.OperationMutate, Table: "Root", Mutations: []ovsdb.Mutation{{Column: "few", Mutator: ovsdb.MutateOperationDelete, Value: vStrSetOvs([]string{x})}}}
+		case 2:
+			s := vStrSet(rt.Choose(3), false)
+			ref = vCloneStrs(s)
+			op = ovsdb.Operation{Op: ovsdb.OperationUpdate, Table: "Root", Row: ovsdb.Row{"few": vStrSetOvs(s)}}
+		}
+		rt.Assume(len(ref) <= 4)
+		cur := model.Model(old)
+		if m := u.GetModel("Root", fix.U1); m != nil {
+			cur = m
+		}
+		one := ModelUpdates{}
+		rt.Assert(one.AddOperation(dbm, "Root", fix.U1, cur, &op) == nil, "C11: a well-typed operation is accepted")
+		rt.Assert(u.Merge(dbm, one) == nil, "C11: the operation's update merges into the accumulated one")
+	}
+	rt.Reach("accumulated")
+	var final *vBounded
+	n := 0
+	_ = u.ForEachModelUpdate("Root", func(uuid string, o, nw model.Model) error {
+		n++
+		final, _ = nw.(*vBounded)
+		return nil
+	})
+	if vStrSetEq(ref, old.Few) {
+		rt.Assert(n == 0, "C11: changes that cancel out leave no update (bounded set)")
+		return
+	}
+	rt.Assert(n == 1 && final != nil && vStrSetEq(final.Few, ref), "C11: the accumulated update carries the final value (bounded set)")
+	// the update2 modify row, applied to the old row, gives the final row
+	_ = u.ForEachRowUpdate("Root", func(uuid string, ru ovsdb.RowUpdate2) error {
+		rt.Assert(ru.Modify != nil, "C11: the accumulated update of an existing row is a modify")
+		if ru.Modify == nil {
+			return nil
+		}
+		fresh := ModelUpdates{}
+		rt.Assert(fresh.AddRowUpdate2(dbm, "Root", fix.U1, old, ovsdb.RowUpdate2{Modify: ru.Modify}) == nil, "C11: the merged modify row applies to the old row")
+		got, _ := fresh.GetModel("Root", fix.U1).(*vBounded)
+		rt.Assert(got != nil && vStrSetEq(got.Few, ref), "C11: the merged modify row, applied to the old row, gives the final row (bounded set)")
+		return nil
+	})
+}
